@@ -1,1 +1,18 @@
-fn main() { println!("hello"); }
+//! jsim — deterministic simulation with fault injection for json-syntax (see /verif/DESIGN.md).
+#[macro_use]
+pub mod kernel;
+pub mod object;
+pub mod orchestrate;
+pub mod scenario;
+pub mod stream;
+
+/// VERIF_SEED (default 1: a fixed value, so the unchanged tree can never flake).
+pub fn seed() -> u64 {
+    std::env::var("VERIF_SEED").ok().and_then(|s| s.trim().parse::<u64>().ok()).unwrap_or(1)
+}
+
+fn main() {
+    let args: Vec<String> = std::env::args().skip(1).collect();
+    let code = orchestrate::main(&args);
+    std::process::exit(code);
+}
